@@ -635,7 +635,34 @@ def rids_wire_ids_derive_both(ctx):
     wire_ids_derive_both(ctx, "C15.IDS")
 
 
-RULES = [r1_code_tables, r2_serializer, r3_field_tables, r4_duplicate_guards, r5_acceptance_table, r6_no_handmade_json, r7_no_borrowed_str, r8_into_owned_is_fieldwise, r9_client_tries_response_first, r10_http_errors_keep_the_envelope, r11_subscription_id_numbers_are_u64, r12_derived_writers_mirror_their_readers, r13_request_decoder_is_plain, r14_null_id_is_an_id, r15_replies_are_decoded_from_their_text, rids_wire_ids_derive_both, rkey_unsubscribe_reads_the_id_as_written]
+def r16_server_error_kind_has_one_source(ctx):
+    """every code has one kind: `ErrorCode::ServerError(n)` is built by `From<i32> for ErrorCode` alone, on its fallback
+    arm. Built by hand elsewhere it can carry a code that has a dedicated kind (-32007 is OversizedRequest): the bytes on
+    the wire are the same, but the value is not the one that parsing those bytes back yields."""
+    F, R = ctx.F, ctx.R
+    n = 0
+    for b in F.real_bodies():
+        if not b.crate.startswith("jsonrpsee") or is_test_body(b):
+            continue
+        for blk in b.blocks:
+            for st in blk["st"]:
+                if st["s"] == "assign" and st["rv"]["k"] == "agg" and (st["rv"].get("adt") or "").endswith("error::ErrorCode") and st["rv"].get("variant") == "ServerError":
+                    n += 1
+                    R.fn(b)
+                    ok = bool(re.search(r"ErrorCode as std::convert::From<i32>>::from$", b.path))
+                    R.check(ok, "C15.R16", "%s:ServerError-built-by-From" % fkey(b), "ServerError(n) is built by From<i32>", "%s builds ErrorCode::ServerError(..) by hand: a code that has a kind of its own (e.g. -32007 OversizedRequest) then travels as a different value than the one its serialisation parses back to" % short(b.path), "%s:%d" % (b.file, st["sp"][0]))
+    R.floor("C15.R16", n, 1, "constructions of ErrorCode::ServerError")
+
+
+def rbatch_nothing_but_response_objects_is_emitted(ctx):
+    """every message the server emits is a response object or an array of them: the `no reply` case of a batch is decided
+    by the reply builder being empty and is sent as nothing, never as a bare `null` (= C02.R3, C02.R5)"""
+    from . import c02
+    c02.r3_append_discipline(ctx)
+    c02.r5_append_writes_every_entry(ctx)
+
+
+RULES = [r16_server_error_kind_has_one_source, rbatch_nothing_but_response_objects_is_emitted, r1_code_tables, r2_serializer, r3_field_tables, r4_duplicate_guards, r5_acceptance_table, r6_no_handmade_json, r7_no_borrowed_str, r8_into_owned_is_fieldwise, r9_client_tries_response_first, r10_http_errors_keep_the_envelope, r11_subscription_id_numbers_are_u64, r12_derived_writers_mirror_their_readers, r13_request_decoder_is_plain, r14_null_id_is_an_id, r15_replies_are_decoded_from_their_text, rids_wire_ids_derive_both, rkey_unsubscribe_reads_the_id_as_written]
 
 LEVEL_TEXT = (
     "Decision tables and structural facts extracted exactly from the type-checked serde code: the error-code tables are "
